@@ -134,5 +134,18 @@ CHECKS["C15"] = dict(
     note="spill files are observed in $TMPDIR of the worker process; request spills are unlinked at creation by multibuf",
     parts=[dict(bin="vh", part="c15", shards=16, budget=dict(quick=100, thorough=1500))])
 
+CHECKS["C08"] = dict(
+    level="exploration", engine="enum", design_ref="DESIGN.md §5 C08",
+    technique="bounded-exhaustive enumeration of request targets and header/peer/TLS/host configurations through the real forwarder to a raw TCP backend that records the exact bytes received",
+    text="All request targets of <= 3 path segments over 11 segment forms (escaped slashes/spaces, multi-byte escapes, semicolons, plus, dot segments, empty segments, sub-delims) x 6 query forms, and all header cases (each hop-by-hop header, headers named in Connection, multi-valued end-to-end headers, every subset of upstream-supplied forwarding headers, Connection naming each of them) x targets x Host forms x peer forms x TLS x pass-host: request line byte-identical, Host per setting, hop-by-hop removed both ways, end-to-end preserved, forwarding headers equal the reference.",
+    note="requests parsed by http.ReadRequest; TLS represented by req.TLS; contradictory upstream values are three-valued; Upgrade outside the alphabet",
+    parts=[dict(bin="vh", part="c08", shards=16, budget=dict(quick=100, thorough=1500))])
+CHECKS["C16"] = dict(
+    level="fault_enumeration", engine="enum", design_ref="DESIGN.md §5 C16",
+    technique="fault enumeration: every backend response script relayed fault-free and with close/reset/stall injected at every step index, through the real forwarder from a raw TCP backend",
+    text="Status, end-to-end headers and body bytes relayed unchanged for every status x header set x size x framing; refused/closed/reset before any byte => 502, stall => 504, client cancellation => 499, broken or garbage head => error status, fault after the head => aborted (ErrAbortHandler) or truncated prefix, never a hang or another panic; StateListener sees exactly connected, disconnected for every exchange including aborted ones.",
+    note="ResponseHeaderTimeout is part of the scenario; 30s watchdog re-run 5x; stalls inside the body excluded (no timeout applies there)",
+    parts=[dict(bin="vh", part="c16", shards=16, budget=dict(quick=120, thorough=1500))])
+
 NOT_APPLICABLE = [dict(property_id=p, reason="check not built yet in this revision (work in progress; see DESIGN.md for the plan)")
                   for p in ALL if p not in CHECKS]
